@@ -297,6 +297,14 @@ NEUTRAL = [
         let mut aligned = self.clone();
         aligned.force_align();
         for item in aligned.as_raw_slice() {""")]),
+    dict(id="N31-unpin-tests-the-probation-length-then-unwraps", file="crates/storage/src/tiny_lfu/policy.rs",
+         edits=[('        let Some(victim) = self.lru.peek_least_recent(lru::Region::Probation)\n        else {\n            self.lru.move_key_to_head_of_region(unpin, lru::Region::Probation);\n            return;\n        };\n', """        if self.lru.probation_len() == 0 {
+            self.lru.move_key_to_head_of_region(unpin, lru::Region::Probation);
+            return;
+        }
+        let victim =
+            self.lru.peek_least_recent(lru::Region::Probation).unwrap();
+""")]),
 ]
 
 
